@@ -6,7 +6,7 @@ use crate::internal::messages::common::TaskFailInfo;
 use crate::internal::messages::worker::{
     NewWorkerMsg, TaskIdsMsg, TaskRunningMsg, TaskUpdates, ToWorkerMessage, WorkerTaskUpdate,
 };
-use crate::internal::scheduler::SchedulerState;
+use crate::internal::scheduler::{SchedulerState, TaskQueues};
 use crate::internal::server::comm::Comm;
 use crate::internal::server::core::{Core, CoreSplitMut};
 use crate::internal::server::task::ComputeTasksBuilder;
@@ -15,7 +15,7 @@ use crate::internal::server::taskmap::TaskMap;
 use crate::internal::server::worker::{Worker, WorkerAssignment};
 use crate::internal::server::workermap::WorkerMap;
 use crate::resources::ResourceRqMap;
-use crate::{ResourceVariantId, TaskId, WorkerId};
+use crate::{Priority, ResourceVariantId, TaskId, WorkerId};
 
 pub(crate) fn on_new_worker(core: &mut Core, comm: &mut impl Comm, worker: Worker) {
     comm.broadcast_worker_message(&ToWorkerMessage::NewWorker(NewWorkerMsg {
@@ -324,8 +324,10 @@ fn task_running(
                 worker_map,
                 scheduler_state,
                 request_map,
+                task_queues,
                 task_id,
                 task.resource_rq_id,
+                task.priority(),
             );
             let rqv = request_map.get(task.resource_rq_id);
             worker_map
@@ -550,8 +552,10 @@ fn task_finished(
                     worker_map,
                     scheduler_state,
                     request_map,
+                    task_queues,
                     task_id,
                     task.resource_rq_id,
+                    task.priority(),
                 );
             }
             TaskRuntimeState::Prefilled { .. }
@@ -589,17 +593,24 @@ fn task_finished(
     true
 }
 
+/// A task leaves the `Retracting` state other than by the retract response:
+/// releases the reservation on the redirect target if there is one; a retracting task without
+/// a target is still offered to the scheduler in the ready queue, so remove it from there.
 fn try_remove_redirection(
     worker_map: &mut WorkerMap,
     scheduler_state: &mut SchedulerState,
     request_map: &ResourceRqMap,
+    task_queues: &mut TaskQueues,
     task_id: TaskId,
     resource_rq_id: ResourceRqId,
+    priority: Priority,
 ) {
     if let Some((worker_id, rv_id)) = scheduler_state.redirects.remove(&task_id) {
         let worker = worker_map.get_worker_mut(worker_id);
         let rq = request_map.get(resource_rq_id).get(rv_id);
         worker.remove_sn_task(task_id, rq);
+    } else {
+        task_queues.get_mut(resource_rq_id).remove(task_id, priority);
     }
 }
 
@@ -657,8 +668,10 @@ fn task_failed(
                                 worker_map,
                                 scheduler_state,
                                 request_map,
+                                task_queues,
                                 task_id,
                                 task.resource_rq_id,
+                                task.priority(),
                             );
                         }
                         _ => {}
@@ -753,8 +766,10 @@ pub(crate) fn on_cancel_tasks(core: &mut Core, comm: &mut impl Comm, task_ids: &
                         worker_map,
                         scheduler_state,
                         request_map,
+                        task_queues,
                         task_id,
                         task.resource_rq_id,
+                        task.priority(),
                     );
                     running_ids.entry(worker_id).or_default().push(task_id);
                     comm.ask_for_scheduling();
